@@ -790,6 +790,15 @@ class SEnum:
     def __hash__(self):
         raise Unsupported("hash(SEnum)")
 
+    def __bool__(self):
+        """truthiness of the member (an IntEnum member with value 0 is falsy; plain Enum members are truthy)"""
+        truth = [bool(m) for m in self.members]
+        if all(truth):
+            return True
+        if not any(truth):
+            return False
+        return ctx().branch(z3.Or(*[_z(self.t) == i for i, b in enumerate(truth) if b]))
+
     @property
     def value(self):
         return "<sym-enum>"
